@@ -149,6 +149,14 @@ fn run_case<T: Elem>(case: u64, args: &Args, ev: &mut Ev, log: &mut EventLog) {
         return;
     }
     let ulp = T::pow2(-(T::MANT as i32)).f();
+    // gradual underflow: a slope that underflows is only known to one subnormal unit, and that
+    // absolute error is multiplied by the distance from the lower knot (at most a cell width)
+    let uf = if T::MANT == 23 { f64::powi(2.0, -149) } else { 5e-324 };
+    let cell_span = |a: f64, b: f64| -> f64 {
+        let i = lower(&x, a);
+        let j = lower(&y, b);
+        (x[i + 1].f() - x[i].f()).abs() + (y[j + 1].f() - y[j].f()).abs()
+    };
     let flat: Vec<f64> = spec.data.iter().map(|v| v.f()).collect();
     let z = |i: usize, j: usize, l: usize| flat[(i * ny + j) * lanes + l];
     let cell_z = |a: f64, b: f64, l: usize| -> f64 {
@@ -201,7 +209,7 @@ fn run_case<T: Elem>(case: u64, args: &Args, ev: &mut Ev, log: &mut EventLog) {
                 let a = res[k * lanes + l].f();
                 let b = tv.f();
                 let zz = cell_z(ux[k].f(), uy[k].f(), l);
-                let tol = 128.0 * ulp * zz;
+                let tol = 128.0 * ulp * zz + 256.0 * uf * (1.0 + cell_span(ux[k].f(), uy[k].f()));
                 ev.add("transpose_compared", 1);
                 if !((a - b).abs() <= tol) {
                     ev.violation(
@@ -252,7 +260,7 @@ fn run_case<T: Elem>(case: u64, args: &Args, ev: &mut Ev, log: &mut EventLog) {
                 let a = res[k * lanes + l].f();
                 let b = v.f();
                 let zz = cell_z(ux[k].f(), uy[k].f(), l);
-                let tol = 80.0 * ulp * zz;
+                let tol = 80.0 * ulp * zz + 256.0 * uf * (1.0 + cell_span(ux[k].f(), uy[k].f()));
                 ev.add("grid_line_compared", 1);
                 if !((a - b).abs() <= tol) {
                     ev.violation(
